@@ -19,7 +19,7 @@ def run(c):
         explores=[("epic.%s" % c.tier, False)],
         asfounds=[("d12", ["InvC13"])],
         prefer=("fresh", "hvf"),
-        budget=150000 if th else 9000,
+        budget=50000 if th else 9000,
         rand={"rand": 30000 if th else 1500, "maxhops": 4, "kinds": ["epic"]},
         flags=["-variants", "2"],
         nontrivial=lambda e: e["p"]["kind"] == "epic" and (e["o"]["disp"] in ("forward", "deliver") or
